@@ -405,7 +405,13 @@ impl IoLoop {
         match event.token() {
             STREAM => {
                 if event.readiness().is_writable() {
-                    self.inner.write_to_stream(stream)?;
+                    let result = self.inner.write_to_stream(stream);
+                    // (see below: the peer may be gone once it has sent its Close)
+                    if let (HandshakeState::ServerClosing(_), Err(_)) = (&*state, &result) {
+                        self.inner.outbuf.clear();
+                        return Ok(());
+                    }
+                    result?;
                 }
                 if event.readiness().is_readable() {
                     let after_handshake = &mut self.frames_after_handshake;
